@@ -27,7 +27,9 @@ func avoidK3(rt *rapid.T, c *Case, st *Stats, big bool, otherRts []int) {
 // graphs above a few dozen nodes"): its auxiliary graph has a node per node, per edge and per band an edge crosses,
 // and the solver is super-quadratic (measured: 19 nodes / 83 edges with longest-path layering took 50 s).
 func posFor(n, m int, poss []int) []int {
-	if n <= 16 && m <= 24 {
+	// sparse graphs (a tree plus at most 3 extra edges) stay cheap up to 48 nodes (measured worst 2.2 s): kept in, because
+	// size thresholds inside the code (32, 64 ...) are only reachable there (seeded/r2-m09 switches behaviour above 32 nodes)
+	if (n <= 16 && m <= 24) || (n <= 48 && m <= n+3) {
 		return poss
 	}
 	var out []int
@@ -211,6 +213,16 @@ func regimeW(quick, thor [3]int) [3]int {
 }
 
 func genC03(rt *rapid.T, st *Stats) *Case {
+	if chance(rt, "medium_connected", 1, 4) {
+		// connected graphs of 8..30 nodes: where the network simplex actually pivots and balances (a seeded change that
+		// needs a 12-node structure - seeded/r2-m03 - was invisible to the small-graph regime)
+		n := rapid.IntRange(8, 30).Draw(rt, "n")
+		ies := genConnN(rt, n, rapid.IntRange(0, n+4).Draw(rt, "extra"))
+		c := &Case{Edges: toEdges(ies, nid)}
+		genOptions(rt, c, NodeIDs(c.Edges), OptSpec{CBs: allCB, Lays: []int{LayNS, LayNS, LayLP}, Poss: posFor(n, len(ies), []int{PosVAlign, PosSink, PosPackRight, PosBK}), BKForced: true,
+			Rts: []int{RtNoop, RtStraight}, Thorough: true, Virt: false, Sizes: 0, NSZero: true, LSZero: false, DefaultsOK: true})
+		return c
+	}
 	return genBandCase(rt, allFam, allCB, allLay, allPos, []int{RtNoop, RtStraight}, 0, false, regimeW([3]int{900, 95, 5}, [3]int{700, 270, 30}))
 }
 
